@@ -7,7 +7,7 @@ Close Scope Z_scope.
 Open Scope nat_scope.
 
 Ltac nsimpl :=
-  cbn [sval subs st cache srcs rlog since edirty eflag ereg efirst epaused ealive edone emissed
+  cbn [sval subs st cache srcs rlog since edirty eflag ereg efirst epaused ealive edone emissed epoll set_epoll
        set_sval set_subs set_st set_cache set_srcs set_rlog set_since set_edirty set_eflag
        set_ereg set_efirst set_epaused set_ealive set_edone set_emissed
        nodes ready trace nocause halted err
